@@ -4,7 +4,11 @@ from checks import common
 import vdriver
 
 PROP = "C19"
-PROFILES = ["array", "slist", "llist", "htable", "buf", "record"]
+# profile -> (flavor, share of the case budget).  htable runs on the deterministic flavor (hash seed
+# 0) so that a failing case replays bit for bit; the others do not depend on it.  slist draws its
+# coin flips from a per-case seeded stream in either flavor (see ds_slist.h).
+PROFILES = [("array", "asan", 1.0), ("slist", "asan", 1.0), ("llist", "asan", 1.0),
+            ("htable", "asan-det", 0.6), ("buf", "asan", 1.0), ("record", "asan", 0.8)]
 RULE = ("each case = one seeded operation sequence on one container compared step by step with a "
         "reference model; non-trivial = >=8 operations and >=1 removal; distinct = distinct "
         "(container, operation-kind trigram) seen in non-trivial cases")
@@ -18,10 +22,15 @@ def run(tier, seed, scale=1.0):
     t0 = time.time()
     per = int((30000 if tier == "quick" else 1500000) * scale)
     res = vdriver.Result()
-    for prof in PROFILES:
-        sp = common.spec("dsmodel", prof, seed)
-        res.merge(vdriver.explore(sp, per, chunk=max(500, per // 64), chunk_timeout=900))
+    for prof, flavor, share in PROFILES:
+        n = max(1, int(per * share))
+        sp = common.spec("dsmodel", prof, seed, flavor=flavor)
+        # the known findings include a sanitizer abort (buf profile): keep resuming crashed chunks
+        # instead of giving up on them after the default 40 reports
+        res.merge(vdriver.explore(sp, n, chunk=max(200, min(n // 64, 4000)), chunk_timeout=900,
+                                  stop_after_violations=max(2000, n // 4)))
     return common.finish(PROP, tier, seed, "exploration", res, own, RULE, t0,
                          min_conclusive=1000 * scale,
                          assumptions=["reference models in harness/dsmodel are correct",
-                                      "ASan+UBSan red zones (gcc) for memory errors"])
+                                      "ASan+UBSan red zones (gcc) for memory errors",
+                                      "htable profile runs with the upstream fuzzing define (hash seed 0)"])
